@@ -120,7 +120,7 @@ PROVS = ("freshLocal", "immutable", "initSelf", "importTime", "ownState", "notFr
 
 
 class Site:
-    __slots__ = ("file", "line", "col", "func", "cls", "kind", "target", "prov", "why")
+    __slots__ = ("file", "line", "col", "func", "cls", "kind", "target", "prov", "why", "guard")
 
     def __init__(self, **kw):
         for k, v in kw.items():
@@ -152,6 +152,7 @@ class FuncScan:
         self.node = node
         self.module_level = is_module_level
         self.sites = OrderedDict()  # (line, col, kind) -> Site
+        self.guards = []
         self.returns = None
         self.nonlocal_names = set()
         self.env = {}
@@ -518,7 +519,13 @@ class FuncScan:
         key = (node.lineno, node.col_offset, kind, ast.unparse(obj))
         s = Site(file=self.file, line=node.lineno, col=node.col_offset, func=self.qual,
                  cls=self.cls or "", kind=kind, target=target_text or ast.unparse(obj),
-                 prov=prov, why=str(why))
+                 prov=prov, why=str(why),
+                 # type guards of `x += …` sites: the enclosing if/elif tests (with polarity) that narrow a type
+                 # (isinstance / type(..) / issubclass).  A
+                 # review that calls such a site "rebinding of an immutable value" rests on these type guards,
+                 # so they are part of the table: widening a guard changes the entry.
+                 guard=" && ".join(g for g in self.guards if "isinstance" in g or "type(" in g or "issubclass" in g)
+                 if kind == "augName" else "")
         old = self.sites.get(key)
         if old is None or PROVS.index(prov) > PROVS.index(old.prov):
             self.sites[key] = s       # keep the worst classification seen over loop iterations
@@ -635,8 +642,12 @@ class FuncScan:
         self.ev(st.test, env)
         e1 = dict(env)
         e2 = dict(env)
+        test_txt = ast.unparse(st.test)
+        self.guards.append("T:" + test_txt)
         self.run_body(st.body, e1)
+        self.guards[-1] = "F:" + test_txt
         self.run_body(st.orelse, e2)
+        self.guards.pop()
         t1 = _terminates(st.body)
         t2 = _terminates(st.orelse)
         if t1 and not t2:
